@@ -787,7 +787,11 @@ func runReplayTest(eng *Engine, pkgPath, src, scratch string) *ReplayResult {
 	if err != nil {
 		return &ReplayResult{Why: err.Error(), TestSrc: src}
 	}
-	args := []string{"test", "-overlay", ovPath, "-vet=off", "-count=1", "-timeout", "60s", "-run", "^TestQedvcReplay$", "-v", "./" + rel}
+	args := []string{"test", "-overlay", ovPath, "-vet=off", "-count=1", "-timeout", "60s", "-run", "^TestQedvcReplay$", "-v"}
+	if strings.Contains(src, "// QEDVC-GOFLAGS: -race") {
+		args = append(args, "-race")
+	}
+	args = append(args, "./"+rel)
 	ctx, cancel := context.WithTimeout(context.Background(), 300*time.Second)
 	defer cancel()
 	cmd := exec.CommandContext(ctx, "go", args...)
@@ -862,7 +866,8 @@ func replayWithDriver(eng *Engine, vc *VC, m *model, cfg checkCfg, scratch strin
 		return "int64(" + v.String() + ")", true
 	})
 	rr := runReplayTest(eng, fn.Pkg.Pkg.Path(), src, scratch)
-	rr.Confirmed = strings.Contains(rr.Output, "QEDVC-REPLAY: POST-VIOLATED") || strings.Contains(rr.Output, "QEDVC-REPLAY: PANIC")
+	rr.Confirmed = strings.Contains(rr.Output, "QEDVC-REPLAY: POST-VIOLATED") || strings.Contains(rr.Output, "QEDVC-REPLAY: PANIC") ||
+		(strings.Contains(src, "// QEDVC-GOFLAGS: -race") && strings.Contains(rr.Output, "WARNING: DATA RACE"))
 	rr.Why = "driver " + driverFile(cfg, vc)
 	return rr
 }
